@@ -98,11 +98,15 @@ class ParserState:
                 matched = False
 
                 if whitespace_rule:
+                    self.checkpoint()
                     matched = whitespace_rule.parse(self, children)
                     if matched:
                         some = True
                         pairs.extend(children)
+                        self.ok()
                         # continue
+                    else:
+                        self.restore()
                     children.clear()
 
                 if comment_rule:
